@@ -586,20 +586,48 @@ fn gen_seq(w: &World, class: &str, k: u64) -> Option<(Value, u64, Vec<Vec<u8>>)>
             let views = vh::small::fdt_views(&c.em);
             let xml = views.iter().find_map(|v| v.xml.clone())?;
             let muts = xml_mutations(&xml, &mut rng, 3);
-            let (what, x) = muts[rng.below(muts.len() as u64) as usize].clone();
+            let (mut what, mut x) = muts[rng.below(muts.len() as u64) as usize].clone();
+            // directed: the FDT announces other lengths than the in-band FTI of the packets did (smaller, larger, zero)
+            if k % 4 == 3 {
+                let set = |xml: &str, attr: &str, val: &str| -> Option<String> {
+                    let pat = format!(" {}=\"", attr);
+                    let p = xml.find(&pat)? + pat.len();
+                    let e = xml[p..].find('"')? + p;
+                    Some(format!("{}{}{}", &xml[..p], val, &xml[e..]))
+                };
+                let cur: u64 = xml.split(" Transfer-Length=\"").nth(1).or_else(|| xml.split(" Content-Length=\"").nth(1)).and_then(|s| s.split('"').next()).and_then(|s| s.parse().ok()).unwrap_or(100);
+                let v = match rng.below(7) { 0 => 0, 1 => 1, 2 => cur / 2, 3 => cur.saturating_sub(1), 4 => cur + 1, 5 => cur * 3 + 7, _ => 10 }.to_string();
+                let mut y = xml.clone();
+                for a in ["Transfer-Length", "Content-Length"] {
+                    if let Some(z) = set(&y, a, &v) {
+                        y = z;
+                    }
+                }
+                what = format!("lengths={}", v);
+                x = y;
+            }
             let e = *rng.pick(&[8192usize, 1400, 64, 7]);
             let fdt_id = 9000 + (k % 1000) as u32;
             let mut seq = wrap_fdt(x.as_bytes(), c.em.spec.tsi, fdt_id, e, if rng.chance(1, 8) { Some(3) } else { None }, rng.chance(1, 2));
-            let obj_first = rng.chance(1, 3);
+            // FDT first / the whole object first / the (rewritten) FDT arriving in the middle of the object: values the
+            // receiver derived from the first packets (in-band FTI) meet different ones from the FDT
+            let order = if k % 4 == 3 { 3 } else { rng.below(4) };
+            let obj_first = order == 2;
             let objs: Vec<Vec<u8>> = c.em.stream.iter().filter(|p| p.toi() != 0).map(|p| p.bytes.clone()).collect();
             if obj_first {
                 let mut s2 = objs.clone();
                 s2.extend(seq);
                 seq = s2;
+            } else if order == 3 && objs.len() >= 2 {
+                let j = rng.range(1, objs.len() as u64 - 1) as usize;
+                let mut s2: Vec<Vec<u8>> = objs[..j].to_vec();
+                s2.extend(seq);
+                s2.extend(objs[j..].iter().cloned());
+                seq = s2;
             } else {
                 seq.extend(objs);
             }
-            Some((json!({"class": "fdtxml", "session": c.name, "mutation": what, "E": e, "object_first": obj_first, "xml_head": x.chars().take(600).collect::<String>()}), c.em.spec.tsi, seq))
+            Some((json!({"class": "fdtxml", "session": c.name, "mutation": what, "E": e, "object_first": obj_first, "fdt_in_the_middle_of_the_object": order == 3, "xml_head": x.chars().take(600).collect::<String>()}), c.em.spec.tsi, seq))
         }
         "sequence" => {
             let c = &w.corpus[rng.below(w.corpus.len() as u64) as usize];
